@@ -2339,6 +2339,18 @@ def _head_cuts(value: ast.expr, T: str, K: "Kinds", fi: FunctionInfo) -> list[tu
                 out.append(("lines", n.slice.lower))  # a line-splitting helper: split_lines(T)[a:b]
             elif isinstance(base, ast.Name) and base.id == T:
                 out.append(("lines" if K.is_lines(base, fi) and not K.is_str(base, fi) else "chars", n.slice.lower))
+            elif isinstance(base, ast.Name) and _owner_of_param(fi, base.id) is None:
+                # the lines of T kept in a local first:  lines = split_lines(T) ... lines[a:b]
+                ds = [v for _s, v, how in _defs(fi, base.id) if how == "assign" and v is not None]
+                if ds and len(ds) == len(_defs(fi, base.id)) and all(
+                    isinstance(v, ast.Call)
+                    and (
+                        (isinstance(v.func, ast.Attribute) and v.func.attr in ("splitlines", "split") and isinstance(v.func.value, ast.Name) and v.func.value.id == T)
+                        or (isinstance(v.func, ast.Name) and len(v.args) == 1 and not v.keywords and isinstance(v.args[0], ast.Name) and v.args[0].id == T)
+                    )
+                    for v in ds
+                ):
+                    out.append(("lines", n.slice.lower))
     return out
 
 
@@ -3339,6 +3351,15 @@ def mutants(corpus: Corpus):
         out.append(("c04-start-after-partition-counts-before-only", "start-after block shape changed"))
     st = find_stmt(f, lambda s: isinstance(s, ast.Assign) and unparse(s.targets[0]) == "startline" and isinstance(s.value, ast.BoolOp))
     add("c04-start-line-count-reset", R7, mk, st.value if st is not None else None, "0", "overwrites")
+    # the same defect with the lines of the file kept in a local first (the cut must still be seen)
+    cut0 = find_stmt(f, lambda s: isinstance(s, ast.Assign) and unparse(s.targets[0]) == "file_content" and "startline:endline" in unparse(s.value).replace(" ", ""))
+    sub0 = next((x for x in ast.walk(cut0.value) if isinstance(x, ast.Subscript) and isinstance(x.slice, ast.Slice)), None) if cut0 is not None else None
+    if st is not None and cut0 is not None and sub0 is not None and not isinstance(sub0.value, ast.Name) and cut0.lineno < st.lineno:
+        src2 = splice(mk.src, st.value, "0")
+        src2 = splice(src2, cut0, f"kept_lines = {unparse(sub0.value)}\n" + " " * cut0.col_offset + ast.get_source_segment(mk.src, cut0).replace(ast.get_source_segment(mk.src, sub0.value), "kept_lines", 1))
+        out.append(Mutant("c04-start-line-count-reset-with-hoisted-lines", R7, mk.rel, src2, expect="overwrites"))
+    else:
+        out.append(("c04-start-line-count-reset-with-hoisted-lines", "start-line cut already uses a hoisted lines local or changed shape"))
     if st is not None:
         add("c04-included-text-leading-blank-lines-stripped", R7, mk, st, ast.get_source_segment(mk.src, st) + "\n" + " " * st.col_offset + 'file_content = file_content.lstrip("\\n")', "strips")
 
